@@ -31,7 +31,7 @@ enum { ARCH_X64 = 0, ARCH_X86 = 1, ARCH_A64 = 2 };
 enum : uint32_t {
   F_FP = 1u << 0, F_VARARGS_ATTR = 1u << 1, F_FUNC_CALLS = 1u << 2, F_IBT = 1u << 3, F_AVX = 1u << 4, F_AVX512 = 1u << 5,
   F_MMX_CLEANUP = 1u << 6, F_AVX_CLEANUP = 1u << 7, F_AVX_AUTO_CLEANUP = 1u << 8, F_RESET_RED_ZONE = 1u << 9, F_UPDATE_API = 1u << 10,
-  F_WRITE_SPILL = 1u << 11, F_SIG_VARARGS = 1u << 12, F_SET_DIRTY = 1u << 13, F_ALL = (1u << 14) - 1
+  F_WRITE_SPILL = 1u << 11, F_SIG_VARARGS = 1u << 12, F_SET_DIRTY = 1u << 13, F_ALL_DIRTY = 1u << 14, F_ALL = (1u << 15) - 1
 };
 
 static inline uint64_t mix(uint64_t x) {
@@ -71,7 +71,7 @@ static P decode(const vh::Case& c) {
   p.argsel = um(cg(c, 4));
   uint32_t gpm = p.arch == ARCH_X64 ? 0xFFFFu : p.arch == ARCH_X86 ? 0xFFu : 0x7FFFFFFFu;
   p.flags = uint32_t(um(cg(c, 13))) & F_ALL;
-  if (p.arch == ARCH_A64) p.flags &= (F_FP | F_VARARGS_ATTR | F_FUNC_CALLS | F_IBT | F_UPDATE_API | F_SIG_VARARGS | F_SET_DIRTY);
+  if (p.arch == ARCH_A64) p.flags &= (F_FP | F_VARARGS_ATTR | F_FUNC_CALLS | F_IBT | F_UPDATE_API | F_SIG_VARARGS | F_SET_DIRTY | F_ALL_DIRTY);
   uint32_t vecm = p.arch == ARCH_X64 ? (p.has(F_AVX512) ? 0xFFFFFFFFu : 0xFFFFu) : p.arch == ARCH_X86 ? 0xFFu : 0xFFFFFFFFu;
   uint32_t km = p.arch == ARCH_A64 ? 0u : 0xFFu;
   p.dirty[0] = uint32_t(um(cg(c, 5))) & gpm;
@@ -234,6 +234,7 @@ static bool build(const P& p, Built& b, vh::Ctx& ctx) {
   for (int g = 0; g < 4; g++) {
     if (p.has(F_SET_DIRTY)) f.set_dirty_regs(RegGroup(g), p.dirty[g]); else f.add_dirty_regs(RegGroup(g), p.dirty[g]);
   }
+  if (p.has(F_ALL_DIRTY)) f.set_all_dirty();     // documented helper: every register of every group clobbered
   if (p.has(F_UPDATE_API)) {
     f.update_local_stack_size(p.local_size); f.update_call_stack_size(p.call_size);
     if (p.local_al) f.update_local_stack_alignment(p.local_al);
@@ -949,8 +950,8 @@ rc::Gen<vh::Case> vh_gen(const vh::Opts&) {
     c.cfg[11] = size(45);
     c.cfg[12] = pct(50) ? 0 : *irange<int>(1, 7);
     int64_t fl = 0;
-    static const int prob[14] = {40, 15, 40, 15, 40, 25, 12, 15, 15, 15, 30, 50, 10, 15};
-    for (int i = 0; i < 14; i++) if (pct(prob[i])) fl |= int64_t(1) << i;
+    static const int prob[15] = {40, 15, 40, 15, 40, 25, 12, 15, 15, 15, 30, 50, 10, 15, 4};
+    for (int i = 0; i < 15; i++) if (pct(prob[i])) fl |= int64_t(1) << i;
     c.cfg[13] = fl;
     c.cfg[14] = pct(75) ? 0 : *irange<int>(1, 29);
     if (pct(18)) { if (pct(50)) c.cfg[15] = mask(0); if (pct(60)) c.cfg[16] = mask(0) & 0xFF; if (pct(40)) c.cfg[17] = mask(0) & 0xFF; }
@@ -1023,6 +1024,7 @@ void vh_run(const vh::Case& c, vh::Ctx& ctx) {
   if (f.has_avx_cleanup() || f.has_avx_auto_cleanup()) ctx.cls("avx_cleanup");
   if (f.has_mmx_cleanup()) ctx.cls("mmx_cleanup");
   if (f.stack_adjustment() == 0) ctx.cls("no_stack_adjustment");
+  if (p.has(F_ALL_DIRTY)) ctx.cls("set_all_dirty");
 
   check_layout(p, b, ctx);
   // SSE moves cannot name xmm16..31: the frame must use (E)VEX moves whenever such a register is saved.
